@@ -66,21 +66,28 @@ impl<'data> Iterator for ArchiveIterator<'data> {
 
     fn next(&mut self) -> Option<Self::Item> {
         match self.iter.next() {
-            Some(Ok(member)) => Some(Ok(if self.is_thin {
-                ArchiveEntry::Thin(ThinEntry {
+            Some(Ok(member)) => Some(if self.is_thin {
+                Ok(ArchiveEntry::Thin(ThinEntry {
                     ident: Identifier {
                         data: member.name(),
                     },
-                })
+                }))
             } else {
-                ArchiveEntry::Regular(ArchiveContent {
-                    ident: Identifier {
-                        data: member.name(),
-                    },
-                    entry_data: member.data(self.data).unwrap(),
-                    data_offset: member.file_range().0 as usize,
-                })
-            })),
+                // The member's size comes from its header and can point past the end of a
+                // truncated or corrupt archive.
+                member
+                    .data(self.data)
+                    .map(|entry_data| {
+                        ArchiveEntry::Regular(ArchiveContent {
+                            ident: Identifier {
+                                data: member.name(),
+                            },
+                            entry_data,
+                            data_offset: member.file_range().0 as usize,
+                        })
+                    })
+                    .map_err(Into::into)
+            }),
             Some(Err(e)) => Some(Err(e.into())),
             None => None,
         }
